@@ -106,7 +106,20 @@ type shape struct {
 
 type mpFile struct {
 	Param, Name, Content string
-	Kind                 string // bytes | reader
+	Kind                 string // bytes | path | seekcloser | reader | buffer | osfile | customseek | customplain
+	// SetFileReader kinds: the caller has already read this many bytes (a header, a magic
+	// number) from the reader before handing it over; Content is what is left to upload
+	Skip int `json:"skip,omitempty"`
+}
+
+// handedOver: the text a SetFileReader source is built over - Skip bytes the caller consumes
+// first, then the content to upload.
+func (f mpFile) handedOver() string { return strings.Repeat("#", f.Skip) + f.Content }
+
+func consume(rd io.Reader, n int) {
+	if n > 0 {
+		io.CopyN(io.Discard, rd, int64(n))
+	}
 }
 
 type afterSpec struct {
@@ -614,11 +627,17 @@ func buildRequest(c *req.Client, p *program) *runState {
 		for _, f := range sh.MPFiles {
 			switch f.Kind {
 			case "reader":
-				r.SetFileReader(f.Param, f.Name, strings.NewReader(f.Content))
+				rd := strings.NewReader(f.handedOver())
+				consume(rd, f.Skip)
+				r.SetFileReader(f.Param, f.Name, rd)
 			case "buffer":
-				r.SetFileReader(f.Param, f.Name, bytes.NewBufferString(f.Content))
+				rd := bytes.NewBufferString(f.handedOver())
+				consume(rd, f.Skip)
+				r.SetFileReader(f.Param, f.Name, rd)
 			case "seekcloser":
-				r.SetFileReader(f.Param, f.Name, nopSeekCloser{strings.NewReader(f.Content)})
+				rd := nopSeekCloser{strings.NewReader(f.handedOver())}
+				consume(rd, f.Skip)
+				r.SetFileReader(f.Param, f.Name, rd)
 			case "customseek": // the caller's own FileUpload: the same seekable reader on every call
 				rd := nopSeekCloser{strings.NewReader(f.Content)}
 				r.SetFileUpload(req.FileUpload{ParamName: f.Param, FileName: f.Name, GetFileContent: func() (io.ReadCloser, error) { return rd, nil }})
@@ -628,7 +647,14 @@ func buildRequest(c *req.Client, p *program) *runState {
 			case "path":
 				r.SetFile(f.Param, uploadPath(f))
 			case "osfile":
-				if fh, err := os.Open(uploadPath(f)); err == nil {
+				if f.Skip > 0 { // a file of its own: the bytes the caller reads first, then the content
+					if fh, err := os.CreateTemp(uploadDir, "skip-*"); err == nil {
+						fh.WriteString(f.handedOver())
+						fh.Seek(int64(f.Skip), io.SeekStart)
+						rs.opened = append(rs.opened, fh)
+						r.SetFileReader(f.Param, f.Name, fh)
+					}
+				} else if fh, err := os.Open(uploadPath(f)); err == nil {
 					rs.opened = append(rs.opened, fh)
 					r.SetFileReader(f.Param, f.Name, fh)
 				}
